@@ -154,7 +154,8 @@ def r161(ctx):
         # what is written
         for bi, ln, c in W:
             a = [render(strip_ref(nv.expr(x))) for x in c.args[1:]]
-            ok = "key" in a[0] and ("version" in " ".join(a) or "vv" in " ".join(a))
+            full = " ".join(render(strip_ref(fv.expr(x))) for x in c.args[1:])     # through any intermediate `let`
+            ok = "key" in a[0] and ("version" in " ".join(a) or "vv" in " ".join(a) or "version" in full)
             ctx.ob("R16.1", ok, f"{be}/put_with_version/write-operands", f"{be} writes {a}", where=f"{b.file}:{ln}", sample=[x[:40] for x in a])
         summaries[be] = res
         # put: version = existing + 1 or 0 ; delete = put(key, empty)
